@@ -512,6 +512,10 @@ pub struct World {
     pub g_events: BTreeMap<GSrc, Vec<u32>>,
     pub g_last_run: BTreeMap<NodeKey, u32>,
     pub g_last_result: BTreeMap<NodeKey, SV>,
+    /// per stabilise: the nodes needed by a live observer during it
+    pub g_cones: BTreeMap<u32, BTreeSet<usize>>,
+    /// pair vars: value after each stabilise in which the var node produced an unsuppressed result
+    pub g_pvar_hist: BTreeMap<usize, Vec<(u32, Pair)>>,
 }
 
 thread_local! {
@@ -595,6 +599,8 @@ impl World {
             g_events: BTreeMap::new(),
             g_last_run: BTreeMap::new(),
             g_last_result: BTreeMap::new(),
+            g_cones: BTreeMap::new(),
+            g_pvar_hist: BTreeMap::new(),
         };
         for s in cfg.specs.clone() {
             w.build(s);
@@ -1073,7 +1079,27 @@ impl World {
         }
         match &self.nodes[j].spec {
             Spec::Const => false,
-            Spec::Fst(a) | Spec::RefId(a) => self.g_changed(*a, lo, hi, depth + 1),
+            Spec::RefId(a) => self.g_changed(*a, lo, hi, depth + 1),
+            Spec::Fst(a) => {
+                // map_ref(.0) of a pair var: it produces an unsuppressed result when the var does and
+                // either the projection differs, or the map_ref node was not needed in that round
+                // (it then missed the change and reports one conservatively when it is needed again)
+                let Some(hist) = self.g_pvar_hist.get(a) else { return true };
+                for (idx, (r, val)) in hist.iter().enumerate() {
+                    if *r <= lo || *r > hi {
+                        continue;
+                    }
+                    let missed = !self.g_cones.get(r).map_or(false, |c| c.contains(&j));
+                    let changed = match idx.checked_sub(1).map(|p| &hist[p].1) {
+                        None => true,
+                        Some(prev) => !exec::decide(F::eq(&prev.0, &val.0)),
+                    };
+                    if missed || changed {
+                        return true;
+                    }
+                }
+                false
+            }
             Spec::DependOn(a, b) => self.g_changed(*a, lo, hi, depth + 1) || self.g_changed(*b, lo, hi, depth + 1),
             Spec::Bind { lhs, then, els } => {
                 if hit(GSrc::BindFn(j)) || hit(GSrc::RhsOf(j)) || self.g_changed(*lhs, lo, hi, depth + 1) {
@@ -1104,6 +1130,14 @@ impl World {
     /// that has run before runs again only if one of its inputs produced a result, since then,
     /// that its cutoff did not suppress.
     fn c06_gating(&mut self, round: u32, log: &[Inv]) {
+        // a pair var's first computation is not visible through its cutoff: it happens in the first
+        // stabilise in which the var is needed
+        let needed = self.g_cones.get(&round).cloned().unwrap_or_default();
+        for (v, pv) in &self.pvars {
+            if needed.contains(v) && !self.g_pvar_hist.contains_key(v) {
+                self.g_pvar_hist.insert(*v, vec![(round, pv.1.clone())]);
+            }
+        }
         let mut i = 0;
         while i < log.len() {
             let inv = &log[i];
@@ -1123,6 +1157,13 @@ impl World {
                     let changed = if inv.args.len() == 2 { !exec::decide(F::eq(&inv.args[0], &inv.args[1])) } else { matches!(&*inv.args[0].0, crate::term::T::Lit(0)) };
                     if changed {
                         self.g_events.entry(GSrc::Node(v)).or_default().push(round);
+                        if let Some(pv) = self.pvars.get(&v) {
+                            let val = pv.1.clone();
+                            let h = self.g_pvar_hist.entry(v).or_default();
+                            if h.last().map_or(true, |(r, _)| *r != round) {
+                                h.push((round, val));
+                            }
+                        }
                     }
                 }
                 NodeKey::Main(_) | NodeKey::BindFn(_) | NodeKey::Rhs(..) => {
@@ -1956,6 +1997,9 @@ impl World {
         let roots = self.live_roots();
         let lb = self.sh.last_branch.borrow().clone();
         let cone_start = self.cone(&roots, &|b| lb.get(&b).copied());
+        if self.cfg.mon.c06g {
+            self.g_cones.insert(round, cone_start.clone());
+        }
         let recomputed_before = self.state.as_ref().unwrap().stats().recomputed;
         self.sh.in_stabilise.set(true);
         if self.cfg.mon.c13 {
